@@ -10,3 +10,5 @@ pub mod stubs;
 pub mod sym;
 #[cfg(kani)]
 mod c16;
+#[cfg(kani)]
+mod c15;
